@@ -58,8 +58,8 @@ def determinism(argv):
 # (property whose quick check must fail, file, old text, new text, what the edit does)
 MUTATIONS = [
     ("C01", "src/bin/s4.rs", "                .min_by(|x, y|", "                .max_by(|x, y|", "print the latest pending message instead of the earliest"),
-    ("C06", "src/bin/s4.rs", "            || ! map_pathid_received_fileinfo.is_empty()", "            || (! map_pathid_received_fileinfo.is_empty() && map_pathid_datum.is_empty())",
-     "stop waiting for outstanding file-infos once any message is pending"),
+    ("C06", "src/bin/s4.rs", "            if filter_.contains(pathid_chan.0) {\n                continue;\n            }", "            if false && filter_.contains(pathid_chan.0) {\n                continue;\n            }",
+     "the coordinator also polls sources whose message is still pending (a newer message overwrites it, schedule permitting)"),
     ("C06", "src/bin/s4.rs", "        if MAP_PATHID_CHANRECVDATUM.read().unwrap().len() != map_pathid_datum.len()", "        if MAP_PATHID_CHANRECVDATUM.read().unwrap().len() > map_pathid_datum.len() + 1",
      "print although one live source has no pending message"),
     ("C03", "src/readers/syslinereader.rs", None, None, "skipped: see seeded/C03"),
